@@ -17,7 +17,7 @@ RULE = ('statements generated from a grammar (reads inside arithmetic, every com
         'annotated assignments to the attribute; augmented assignment of every operator to the attribute itself; two thread-safe '
         'attributes in one statement; the documented "_, _lock = o.a" form; multi-line variants), each emitted as real source lines in a '
         'generated module (the descriptor inspects its caller\'s source) and run against a FRESH class and instance; after the statement '
-        'a second thread must be able to take the lock of every thread-safe attribute without blocking. Leaks are keyed by the syntactic '
+        'a second thread must be able to take the lock of every thread-safe attribute without blocking. Every third module is then EDITED (the same statements in another order, so every line number carries a different statement) and reloaded, and every statement is run and probed again. Leaks are keyed by the syntactic '
         'class of the statement. Every fourth case is concurrent: 2-4 real threads execute 1-3 statements each on ONE object (o.a += c, '
         'o.a -= c, o.a *= c, o.a = k, x = o.a, o.b += c - forms that release the lock when run alone) under detsched with a yield point '
         'at every bytecode boundary of miros/thread_safe_attributes.py and of the statements; whenever a thread has finished one of its '
@@ -27,7 +27,7 @@ RULE = ('statements generated from a grammar (reads inside arithmetic, every com
 CASES = {'quick': 400, 'thorough': 20000}
 BUDGET = {'quick': 150, 'thorough': 600}
 REQUIRE = {'statements': 4000, 'probes': 8000, 'plain_reads_ok': 60, 'self_augassign_ok': 100, 'concurrent_runs': 200,
-           'concurrent_statements_checked': 300, 'concurrent_switch_between_get_and_set': 40, 'systematic_schedules': 300, 'systematic_scenarios_exhausted': 2}
+           'concurrent_statements_checked': 300, 'concurrent_switch_between_get_and_set': 40, 'systematic_schedules': 300, 'systematic_scenarios_exhausted': 2, 'statements_run_after_a_reload': 1000}
 ANNOUNCE_CASES = True
 ASSUME = ['one generated statement per function; the probe reads the descriptor\'s lock object (falls back to a timed read when the attribute layout changes)']
 
@@ -275,6 +275,38 @@ def run_case(ctx, n):
     return
   rng = ctx.rng('case', n)
   stmts = [gen_statement(rng) for _ in range(rng.randint(15, 30))]
+  SEQ[0] += 1
+  modname = 'c28_wl_%d_%d' % (os.getpid(), SEQ[0])
+  path = os.path.join(TMP, modname + '.py')
+  # every third sequential case EDITS the module and reloads it (a development session, an autoreloader): the same file then
+  # holds the statements in another order, so every line number carries a different statement than in the first version
+  versions = [stmts]
+  if n % 3 == 1:
+    second = list(stmts)
+    rng.shuffle(second)
+    versions.append(second)
+  mod = None
+  try:
+    for vi, stmts in enumerate(versions):
+      write_module(path, stmts, vi)
+      if vi == 0:
+        mod = importlib.import_module(modname)
+      else:
+        importlib.invalidate_caches()
+        mod = importlib.reload(mod)
+        ctx.count('modules_edited_and_reloaded')
+      run_module(ctx, mod, stmts, vi)
+  finally:
+    sys.modules.pop(modname, None)
+    try:
+      os.unlink(path)
+    except OSError:
+      pass
+  if n < 2:
+    ctx.sample({'statements': [ln for _, ls in stmts[:10] for ln in ls]})
+
+
+def write_module(path, stmts, version):
   src = ['from miros.thread_safe_attributes import MetaThreadSafeAttributes', '',
          'def f(*a, **k):', '  return 1', '',
          'class Other:', '  plain = 3', '',
@@ -289,15 +321,21 @@ def run_case(ctx, n):
       src.append('  ' + ln)
     src.append('  return o')
     src.append('')
-  SEQ[0] += 1
-  modname = 'c28_wl_%d_%d' % (os.getpid(), SEQ[0])
-  path = os.path.join(TMP, modname + '.py')
   with open(path, 'w') as f:
     f.write('\n'.join(src) + '\n')
-  try:
-    mod = importlib.import_module(modname)
+  # the edit is a later one: its time stamp differs from the first version's (file systems with coarse time stamps, and a
+  # shuffled file has the same size)
+  t = os.stat(path).st_mtime + 10 * version
+  os.utime(path, (t, t))
+
+
+def run_module(ctx, mod, stmts, version):
+  if True:
     for i, (label, lines) in enumerate(stmts):
       wit = {'statement': lines, 'class': label}
+      if version:
+        wit['module'] = 'edited (statements re-ordered) and reloaded: version %d of the same file' % (version + 1)
+        ctx.count('statements_run_after_a_reload')
       ctx.count('statements')
       ctx.distinct(ast_shape(lines))
       try:
@@ -323,11 +361,3 @@ def run_case(ctx, n):
         if label == 'self-augassign':
           ctx.count('self_augassign_ok')
         ctx.count('released_ok:' + label)
-  finally:
-    sys.modules.pop(modname, None)
-    try:
-      os.unlink(path)
-    except OSError:
-      pass
-  if n < 2:
-    ctx.sample({'statements': [ln for _, ls in stmts[:10] for ln in ls]})
